@@ -86,7 +86,10 @@ def binary_records(ck, tree, messages, nworkers=16, datacode=None):
                 return
             script = {"rawdata": True}
             if datacode:
-                script["data"] = {"code": datacode, "multi": False}
+                script["data"] = {"code": datacode % 1000, "multi": False}
+                if datacode >= 1000:
+                    # a reply of three lines to one of the commands before it (the client must still be in step when DATA is refused)
+                    script[{1: "helo", 2: "mail", 3: "rcpt0"}[datacode // 1000]] = {"code": 250, "multi": True}
             obs, out, rc = smtpsrv.run_remote(tree, ep, bytes(m), "s@sender.test", ["r@" + ep.host], script)
             first = out[:1].decode("latin1")
             if "raw" in obs:
@@ -224,7 +227,7 @@ def main():
         # the server refuses the DATA command: the message (its lines chosen to look like commands) must not be sent at all
         cmdlike = [list(b"RSET\nMAIL FROM:<x@y>\nRCPT TO:<v@w>\nDATA\nsmuggled\n.\nQUIT\n"), list(b"QUIT\n"), [120, 10], [46, 10], []]
         nd = []
-        for dc in (451, 421, 554, 452):
+        for dc in (451, 421, 554, 452, 1451, 1554, 2451, 3451, 3554):
             nd += [r for r in binary_records(ck, tree, cmdlike, datacode=dc) if not r["r"].startswith("noconn")]
         recs += nd
         ck.cov["transmissions_with_data_refused"] = len(nd)
